@@ -8,6 +8,7 @@ import (
 	"diagonal.works/b6/api"
 	"diagonal.works/b6/encoding"
 	"diagonal.works/b6/ingest"
+	"diagonal.works/b6/verifhook"
 	"github.com/golang/geo/s2"
 )
 
@@ -214,7 +215,10 @@ func addWorldWithChange(c *api.Context, id b6.FeatureID, change ingest.Change) (
 	// TODO: this should actually return a Change, to be applied at the top
 	// level
 	c.Worlds.DeleteWorld(id)
-	return change.Apply(c.Worlds.FindOrCreateWorld(id))
+	verifhook.Point("functions.addworld.deleted")
+	w := c.Worlds.FindOrCreateWorld(id)
+	verifhook.Point("functions.addworld.found")
+	return change.Apply(w)
 }
 
 // Export the changes that have been applied to the world to the given filename as yaml.
